@@ -20,7 +20,6 @@ use laythe_core::{
 use laythe_core::{Captures, ObjRef, Ref};
 use std::{cmp::Ordering, mem};
 
-#[cfg(debug_assertions)]
 use laythe_core::hooks::GcContext;
 
 impl Vm {
